@@ -54,4 +54,4 @@ def replay(doc):
     if doc['unit'].endswith('check_kwargs_shape') and isinstance(args.get('sigs'), np.ndarray) and args['sigs'].dtype == object:
         args['sigs'] = np.zeros(args['sigs'].shape)
     rc = doc['contract']
-    return ceval.check_call(fn, args, rc['case'], rc['base'])
+    return ceval.check_call(fn, args, rc['case'], rc['base'], strict_requires=True)
